@@ -68,11 +68,13 @@ def extra_cpp(stack):
     return src
 
 
-def level_words(stack):
+def level_words(stack, wild=None):
     """the configuration words of every level, outermost first, as the harness prints them"""
     out = []
-    for l in stack.layers():
-        if isinstance(l, G.Array):
+    for i, l in enumerate(stack.layers()):
+        if wild is not None and not isinstance(l, G.Array):
+            out.append(list(wild[i]))
+        elif isinstance(l, G.Array):
             out.append([l.n])
         else:
             out.append(list(l.cfg_words()))
@@ -96,9 +98,9 @@ def cfg_type(l):
     return ("constant", osk, M)
 
 
-def nontrivial(stack):
+def nontrivial(stack, wild=None):
     seen = collections.defaultdict(set)
-    for l, w in zip(stack.layers(), level_words(stack)):
+    for l, w in zip(stack.layers(), level_words(stack, wild)):
         if cfg_type(l) != ("monostate",):
             seen[cfg_type(l)].add(tuple(w))
     return any(len(v) >= 2 for v in seen.values())
@@ -177,11 +179,16 @@ def gen(ctx):
     ncoord = 24 if ctx.quick else 60
     for it in items:
         it["coords"] = G.gen_coords(rnd, it["stack"], ncoord)
+        # the same C++ type with arbitrary configuration values (any non-NaN bit pattern; no lookups are made on these)
+        it["wild"] = []
+        for _ in range(2 if ctx.quick else 5):
+            it["wild"].append([[B.random_scalar(rnd, k) if rnd.random() < 0.7 else rnd.choice(B.extremes(k)) for k in l.cfg_kinds()]
+                               for l in it["stack"].layers()])
     return items
 
 
-def fmt_pack(stack):
-    return " | ".join(" ".join(map(str, [l.cfg_ty()] + w)) for l, w in zip(stack.layers(), level_words(stack)))
+def fmt_pack(stack, wild=None):
+    return " | ".join(" ".join(map(str, [l.cfg_ty()] + w)) for l, w in zip(stack.layers(), level_words(stack, wild)))
 
 
 def parse_chain(o, stack):
@@ -196,6 +203,16 @@ def parse_chain(o, stack):
         return lv(a), lv(b)
     except ValueError:
         return None
+
+
+def variants(it, outs):
+    """(wild words or None, variant index, [chain, packfor, rebuild] answers) for the constructed configuration and every wild variant"""
+    yield None, 0, outs[:3]
+    base = 3 + len(it["coords"])
+    for j, wl in enumerate(it.get("wild", [])):
+        o = outs[base + 4 * j: base + 4 * j + 4]
+        if len(o) == 4:
+            yield wl, j + 1, o[1:]
 
 
 def evaluate(ctx, items, cfgs):
@@ -219,6 +236,10 @@ def evaluate(ctx, items, cfgs):
         sk = s.in_kind()[0]
         lines = [f"chain S{k}", f"packfor S{k} {' '.join(map(str, G.cfg_words(s)))} ; {' '.join(map(str, s.cells()))}", f"rebuild S{k}"]
         lines += [f"cmp S{k} ; ; {' '.join(str(G.enc(sk, x)) for x in c)}" for c, _, _ in items[k]["coords"]]
+        for wl in items[k].get("wild", []):
+            ww = " ".join(str(x) for lv in wl for x in lv)
+            cells = " ".join(map(str, s.cells()))
+            lines += [f"setup S{k} {ww} ; {cells}", f"chain S{k}", f"packfor S{k} {ww} ; {cells}", f"rebuild S{k}"]
         outs, _ = C.run_lines(exe[(k, cfg)], lines, setup=[G.setup_line(k, s)])
         return outs
     jobs = [(k, cfg) for k in range(len(items)) for cfg in cfgs if (k, cfg) in exe]
@@ -227,37 +248,40 @@ def evaluate(ctx, items, cfgs):
     mlines, midx = [], {}
     for (k, cfg), outs in zip(jobs, results):
         s = items[k]["stack"]
-        for op, o in zip(("chain", "packfor", "rebuild"), outs[:3]):
-            pc = parse_chain(o, s)
-            if pc is None:
-                continue
-            for which, lv in zip(("o", "v"), pc):
-                rep_ = " | ".join(" ".join(map(str, [l.cfg_ty()] + w)) for l, w in zip(s.layers(), lv)) if len(lv) == s.depth() else \
-                    " | ".join(" ".join(map(str, [99] + w)) for w in lv)
-                midx[(k, cfg, op, which)] = len(mlines)
-                mlines.append(f"{op} | {fmt_pack(s)} # {rep_}")
+        for wl, vi, o3 in variants(items[k], outs):
+            for op, o in zip(("chain", "packfor", "rebuild"), o3):
+                pc = parse_chain(o, s)
+                if pc is None:
+                    continue
+                for which, lv in zip(("o", "v"), pc):
+                    rep_ = " | ".join(" ".join(map(str, [l.cfg_ty()] + w)) for l, w in zip(s.layers(), lv)) if len(lv) == s.depth() else \
+                        " | ".join(" ".join(map(str, [99] + w)) for w in lv)
+                    midx[(k, cfg, op, which, vi)] = len(mlines)
+                    mlines.append(f"{op} | {fmt_pack(s, wl)} # {rep_}")
     mout = C.run_driver("configcheck", mlines) if mlines else []
     # ---- per case
     for (k, cfg), outs in zip(jobs, results):
         it = items[k]
         s = it["stack"]
-        want = level_words(s)
-        nt = nontrivial(s)
         sj = s.to_json()
         depth = s.depth()
         sk = s.in_kind()[0]
         osk, M = s.out_kind()
-        for op, obl, o in zip(("chain", "packfor", "rebuild"), ("config_chain", "pack_for", "rebuild"), outs[:3]):
+        for wl, vi, o3 in variants(it, outs):
+          want = level_words(s, wl)
+          nt = nontrivial(s, wl)
+          for op, obl, o in zip(("chain", "packfor", "rebuild"), ("config_chain", "pack_for", "rebuild"), o3):
             if op == "packfor" and o == "nohelper":
                 corr.dist["packfor/not-shipped(depth>10)"] += 1
                 continue
             corr.configs[cfg] += 1
-            corr.case((s.desc(), G.cfg_words(s), op, cfg), nt)
+            corr.case((s.desc(), want, op, cfg), nt)
             corr.dist[f"{op}/depth{depth}"] += 1
             corr.dist[f"origin/{it['origin']}"] += 1
+            corr.dist["values/" + ("arbitrary bit patterns" if wl else "lookup-valid")] += 1
             for l in s.layers():
                 corr.dist["layer/" + l.label] += 1
-            cj = {"stack": sj, "coords": [[G.jv(x) for x in c] for c, _, _ in it["coords"][:6]], "cfg": cfg, "op": op}
+            cj = {"stack": sj, "coords": [[G.jv(x) for x in c] for c, _, _ in it["coords"][:6]], "cfg": cfg, "op": op, "wild": [wl] if wl else []}
             key = {"kind": op, "stack": s.desc()}
             pc = parse_chain(o, s)
             how = {"chain": "constructed from make_parameter_pack", "packfor": "constructed from make_parameter_pack_for<field<B>>(a0, …)",
@@ -267,7 +291,7 @@ def evaluate(ctx, items, cfgs):
                 corr.violation(obl, f"field<{s.desc()[:170]}> {how}: reading the configuration chain died or printed garbage ({cfg}): {o[:120]}", cj,
                                impl=o, model=want, oracle_fails=True, key=key, cfg=cfg)
                 continue
-            mv = [mout[midx[(k, cfg, op, w)]] for w in ("o", "v")]
+            mv = [mout[midx[(k, cfg, op, w, vi)]] for w in ("o", "v")]
             dis = any(x != "ok" for x in mv)
             corr.add_obl(obl, 1, 1 if dis else 0)
             fail = None
@@ -290,7 +314,7 @@ def evaluate(ctx, items, cfgs):
                 corr.sample({"stack": s.desc()[:200], "op": op, "impl": o[:300], "constructed_with": want, "model": mv, "cfg": cfg})
         # lookups of the original, the rebuilt and (non-array primitives) the helper-built field
         nbad = 0
-        for (c, v, tr), o in zip(it["coords"], outs[3:]):
+        for (c, v, tr), o in zip(it["coords"], outs[3:3 + len(it["coords"])]):
             corr.dist["rebuild/lookups"] += 1
             parts = [p.split() for p in o.split("|")] if not o.startswith("CRASH") and o not in ("nosetup", "unsupported") else None
             wantb = [str(G.enc(osk, x)) for x in v]
@@ -322,4 +346,4 @@ def replay(ctx):
             coords.append((x, s.pe(x, set()), set()))
         except (G.UB, G.Inexact):
             pass
-    return evaluate(ctx, [{"stack": s, "origin": "replay", "coords": coords}], [c.get("cfg") or "dbg"])
+    return evaluate(ctx, [{"stack": s, "origin": "replay", "coords": coords, "wild": c.get("wild") or []}], [c.get("cfg") or "dbg"])
